@@ -28,7 +28,7 @@ fn main() {
     ck.assume("a zero-length span at or inside another span, and the empty span set, are outside the strict clauses (either documented outcome accepted, consistently)");
     ck.assume("temp files live on a healthy local filesystem; I/O errors of the harness itself are reported as infrastructure trouble");
 
-    ck.run(Section::pbt("extract", tier.pick(1_500, 75_000), move || extract::strategy(tier), extract::check).shards(16));
+    ck.run(Section::pbt("extract", tier.pick(12_000, 300_000), move || extract::strategy(tier), extract::check).shards(16));
     let infra: Vec<String> = std::mem::take(&mut *extract::INFRA.lock().unwrap());
     for m in infra {
         ck.infra(format!("extract: {m}"));
@@ -36,7 +36,7 @@ fn main() {
 
     let known = ck.known().clone();
     let k1 = known.clone();
-    ck.run(Section::pbt("merge-plan", tier.pick(5_000, 2_000_000), plan::strategy, move |c: &plan::PlanCase| plan::check(c, &k1)).shards(16));
+    ck.run(Section::pbt("merge-plan", tier.pick(100_000, 5_000_000), plan::strategy, move |c: &plan::PlanCase| plan::check(c, &k1)).shards(16));
     let k2 = known;
     ck.run(
         Section::enumerate("merge-plan-small", plan::SMALL_SCOPE, plan::small_scope, move |c: &plan::PlanCase| plan::check(c, &k2)).shards(16),
